@@ -186,6 +186,16 @@ def check_loadable(code):
             aliases.add(t[1])
         if len(t) == 3 and t[0] == "define":
             defines.add(t[1])
+    noted = [i for i, line in enumerate(p.lines) if "Generated by PyTrapIC" in line]
+    if len(noted) > 1:
+        return f"the version note appears on {len(noted)} lines"
+    for i in noted:
+        line = p.lines[i]
+        code = ic10_machine.split_comment(line)
+        if "Generated by PyTrapIC" in code:
+            return f"line {i}: the version note is not inside a trailing comment: {line!r}"
+        if len(line) > 90:
+            return f"line {i}: the version note makes the line {len(line)} characters long (limit 90): {line!r}"
     for i, line in enumerate(p.lines):
         r = check_line(line, p.labels, aliases, defines)
         if r:
